@@ -73,7 +73,7 @@ Step ==
                  LET C1 == [cs EXCEPT ![e.c] = [NoC EXCEPT !.st = "wait", !.since = advN]]
                      r == IF beh[e.c] = "earlyclose"
                           THEN <<[C1 EXCEPT ![e.c].st = "gone", ![e.c].must = "eof", ![e.c].cause = TRUE], reg, gen>>
-                          ELSE IF beh[e.c] \in {"silent", "late"} THEN <<C1, reg, gen>>
+                          ELSE IF beh[e.c] \in {"silent", "stalled", "late"} THEN <<C1, reg, gen>>
                           ELSE FirstFrame(e.c, C1, reg, gen) IN
                  cs' = r[1] /\ reg' = r[2] /\ gen' = r[3] /\ hs' = hs
             [] e.ev = "Send" ->
